@@ -184,6 +184,8 @@ def run(chk, tier, seed, replay=None):
         c['mode'] = 'cli'
         c['world'].setdefault('env', {})['fd2_at_exit'] = rng.choice(
             [['bye'], ['Exception ignored in: <x>', '  File "y", line 1'], ['a'] * 30])
+        if rng.random() < 0.4:
+            c['world']['env']['fd2_at_exit_nonl'] = True
     cases += qcases
     for c in cases[:2] + tcases[:2]:
         chk.sample({'world': c['world'], 'options': c['o'], 'mode': c['mode'],
